@@ -96,8 +96,13 @@ def run_lhs(ctx, ntok, first, via):
             return
         rules = {'p': 'not (%s) or %s' % (text, text)} if via == 'expr' \
             else {'p': text}
-    enf = common.mk_enforcer(rules=policy.Rules.from_dict(rules))
-    detail = {'lhs': lhs, 'via': via, 'target': sorted(target)}
+    # an enforcer in its default mode (use_conf=True) loads -- and validates
+    # -- its rules inside enforce(); one that was handed its rules does not
+    default_mode = bool(ctx.bool('default_mode'))
+    enf = common.mk_enforcer(rules=policy.Rules.from_dict(rules),
+                             use_conf=default_mode)
+    detail = {'lhs': lhs, 'via': via, 'target': sorted(target),
+              'use_conf': default_mode}
     got = _enforce(ctx, enf, 'p', target, creds, 'lhs:exception', detail)
     ctx.cover('lhs:' + via)
     ctx.observe('lhs', lhs)
@@ -129,6 +134,10 @@ def cubes_lhs(tier, seed):
             for via in (('list', 'text') if n == L and L > 2
                         else ('list', 'list-and', 'text', 'expr')):
                 out.append({'ntok': n, 'first': f, 'via': via})
+    if tier == 'quick':
+        # displays of containers need four tokens: {[]}, [{}], ((,)), ...
+        for f in (TOKENS.index('{'), TOKENS.index('['), TOKENS.index('(')):
+            out.append({'ntok': 4, 'first': f, 'via': 'list'})
     return out
 
 
